@@ -52,7 +52,8 @@ Arguments Ok {A} a. Arguments Err {A}. Arguments Panic {A} s.
 Definition bind {A B} (r : res A) (f : A -> res B) : res B :=
   match r with Ok a => f a | Err => Err | Panic s => Panic s end.
 
-(** which candidate repairs are applied (all [false] = the tree as it is) *)
+(** which repairs are applied: [no_fixes] = the pinned tree, [all_fixes] = the tree
+    after the `fix:` commits of docs/FIXES_APPLIED.md *)
 Record fixes := {
   fx1 : bool;   (* C19-F1: createKeyStore returns an error for a store without keys *)
   fx2 : bool;   (* C19-F2: createEntry rejects unsupported key sizes *)
@@ -61,10 +62,11 @@ Record fixes := {
   fx5 : bool;   (* C19-F5: http_message_signatures accepts P-521 (case 512, 521) *)
   fx6 : bool;   (* C19-F6: buildChain never re-uses a certificate already in the chain *)
   fx7 : bool;   (* C19-F7: pemx.ReadPEM stops at a nil block *)
-  fx8 : bool }. (* C19-F8: parseYAML rejects mappings with non-string keys *)
+  fx8 : bool;   (* C19-F8: parseYAML rejects mappings with non-string keys *)
+  fx18 : bool }. (* C18-F2 (not a C19 finding): every fsnotify event re-examines the file *)
 
-Definition no_fixes := {| fx1 := false; fx2 := false; fx3 := false; fx4 := false; fx5 := false; fx6 := false; fx7 := false; fx8 := false |}.
-Definition all_fixes := {| fx1 := true; fx2 := true; fx3 := true; fx4 := true; fx5 := true; fx6 := true; fx7 := true; fx8 := true |}.
+Definition no_fixes := {| fx1 := false; fx2 := false; fx3 := false; fx4 := false; fx5 := false; fx6 := false; fx7 := false; fx8 := false; fx18 := false |}.
+Definition all_fixes := {| fx1 := true; fx2 := true; fx3 := true; fx4 := true; fx5 := true; fx6 := true; fx7 := true; fx8 := true; fx18 := true |}.
 
 (** * Key store *)
 
@@ -463,8 +465,10 @@ Definition process (f : fixes) (proxy has_default : bool) (st : list string) (e 
 Record fs_bits := { o_create : bool; o_write : bool; o_chmod : bool; o_remove : bool; o_rename : bool }.
 Inductive fs_op := FsWrite (* Create | Write | Chmod *) | FsRemove | FsNone (* Rename only … *).
 (** the switch of ruleSetsChanged *)
-Definition op_class (b : fs_bits) : fs_op :=
-  if o_create b || o_write b || o_chmod b then FsWrite else if o_remove b then FsRemove else FsNone.
+Definition op_class (f : fixes) (b : fs_bits) : fs_op :=
+  if fx18 f then
+    (if o_create b || o_write b || o_chmod b || o_remove b || o_rename b then FsWrite else FsNone)
+  else if o_create b || o_write b || o_chmod b then FsWrite else if o_remove b then FsRemove else FsNone.
 Inductive fs_read := RdOpenNotExist | RdOpenErr | RdEmpty | RdBad | RdParsed (hash : nat).
 Inductive pcall := PCreated | PUpdated | PDeleted.
 
@@ -486,7 +490,7 @@ Definition fs_deleted (st : option nat) (e : fs_event) : fs_out :=
   end.
 
 Definition fs_changed (f : fixes) (st : option nat) (e : fs_event) : fs_out :=
-  match op_class (fe_bits e) with
+  match op_class f (fe_bits e) with
   | FsNone => FsDone {| fr_state := st; fr_calls := []; fr_err := false |}
   | FsRemove => fs_deleted st e
   | FsWrite =>
